@@ -18,6 +18,7 @@ func array(n int, e Ty) Ty   { return Ty{K: "array", Len: n, Elem: &e} }
 func mapOf(k, v Ty) Ty       { return Ty{K: "map", Key: &k, Elem: &v} }
 func anyTy() Ty              { return Ty{K: "any"} }
 func errTy() Ty              { return Ty{K: "error"} }
+func ifaceLit() Ty           { return Ty{K: "ifacelit"} }
 func fld(n string, t Ty, tag string) Field {
 	return Field{Name: n, Ty: t, Tag: []byte(tag), TagQ: quoteTag([]byte(tag))}
 }
@@ -104,6 +105,9 @@ func genTy(r *core.RNG) Ty {
 		}
 		return t
 	default:
+		if r.Chance(30) {
+			return ifaceLit() // known finding unnamed_method_interface_rendered_any
+		}
 		return array(1+r.Intn(3), genElem(r, 1))
 	}
 }
@@ -338,6 +342,8 @@ func corners() []Input {
 	out = append(out, one([]Field{fld("A", basic("int"), ".a[b.c]")}, Spec{}))                             // no split: leading dot
 	out = append(out, one([]Field{fld("X", basic("int"), ""), fld("Err", errTy(), `json:"err"`)}, Spec{})) // #15, #23
 	out = append(out, one([]Field{fld("A", anyTy(), `@x %v 'q' "d"`), fld("R", named("io", "Reader"), "")}, Spec{}))
+	out = append(out, one([]Field{fld("A", basic("int"), ""), fld("F", ifaceLit(), `json:"f"`)}, Spec{})) // known finding: method interface
+	out = append(out, one([]Field{fld("A", basic("int"), ""), fld("F", ifaceLit(), `json:"f"`)}, Spec{Omit: []string{"F"}}))
 	// #31 grouped declaration
 	g := Input{OriginPkg: "origin", LibPkg: "lib", Types: []OriginType{
 		{Name: "T0", Fields: []Field{fld("A", basic("int"), `json:"a"`), fld("B", slice(basic("string")), "")}},
